@@ -119,6 +119,10 @@ def _loops_in_order(fn: ast.FunctionDef) -> dict[int, int]:
     return out
 
 
+_PURE_BUILTINS = {"len", "isinstance", "issubclass", "min", "max", "list", "tuple", "reversed", "enumerate", "zip", "any", "all", "str", "int", "hash", "type", "getattr",
+                  "hasattr", "sorted", "set", "dict", "next", "iter", "id", "cast", "bool", "repr", "print", "range", "frozenset", "callable"}
+
+
 def _assigned_names(stmts: list[ast.stmt]) -> set[str]:
     names: set[str] = set()
 
@@ -713,6 +717,8 @@ class Machine:
             v = self.global_syms.get(g)
             if isinstance(v, VHeapRef):
                 cells.add(v.addr)
+            elif isinstance(v, VTerm):
+                self.global_syms[g] = same_sort_fresh(v, g)        # a global held as a value (not a container cell): unconstrained at the loop head
         return cells
 
     def _try_static_container(self, e: ast.Attribute) -> VHeapRef | None:
@@ -738,6 +744,15 @@ class Machine:
                     key = self.resolve_contract_key_static(name)
                     if key:
                         out.update(self.world.registry.contracts[key].modifies)
+                    elif self.contract.modifies and not (isinstance(f, ast.Name) and f.id in _PURE_BUILTINS) \
+                            and not (isinstance(f, ast.Attribute) and f.attr in LIST_MUTATORS and isinstance(f.value, ast.Name) and f.value.id not in self.global_syms) \
+                            and not self._is_logging(n):
+                        # a method call, a call through a hook (object.__setattr__, cls.method) or any other call that is not resolved here: whatever this
+                        # function may modify, the loop body may modify (sound over-approximation; a loop that leaves a global alone says so in its invariant)
+                        out.update(self.contract.modifies)
+                elif isinstance(n, (ast.Assign, ast.AugAssign, ast.AnnAssign)) and self.contract.modifies and any(
+                        isinstance(t_, ast.Attribute) for t_ in (n.targets if isinstance(n, ast.Assign) else [n.target])):
+                    out.update(self.contract.modifies)
                 elif isinstance(n, ast.Subscript) and isinstance(n.ctx, (ast.Store, ast.Del)) and isinstance(n.value, ast.Name) and n.value.id in self.global_syms:
                     out.add(n.value.id)
         return out
